@@ -100,23 +100,43 @@ def flavours(sig):
   return out
 
 
-def model_states(sig, b):
+VALUE_MODES = {
+    # distinct tokens: mis-binding is visible
+    'tokens': None,
+    # values that are falsy / None: "is it set?" must not be a truth test
+    'none': [None],
+    'falsy': [0, '', False, (), 0.0],
+    # equal-and-hash-equal but different values: nothing may key on ==
+    'eqhash': [1, True, 1.0, 0, False, 0.0],
+}
+
+
+def model_states(sig, b, mode='tokens'):
   m = M.Model(sig)
   slots = list(range(m.P))
+  alphabet = VALUE_MODES[mode]
   for pres in itertools.product((False, True), repeat=m.P):
     for vlen in (range(b['max_v'] + 1) if m.has_var else (0,)):
       for kos in itertools.product((False, True), repeat=len(m.ko_names)):
         for extra in ((False, True) if m.has_kw else (False,)):
           mm = M.Model(sig)
+          counter = [0]
+
+          def val(token):
+            if alphabet is None:
+              return token
+            counter[0] += 1
+            return alphabet[(counter[0] - 1) % len(alphabet)]
+
           for i in slots:
             if pres[i]:
-              mm.prefix[i] = f'v_{m.pos[i][0]}'
-          mm.V = [f'v_va{j}' for j in range(vlen)]
+              mm.prefix[i] = val(f'v_{m.pos[i][0]}')
+          mm.V = [val(f'v_va{j}') for j in range(vlen)]
           for n, on in zip(m.ko_names, kos):
             if on:
-              mm.K[n] = f'v_{n}'
+              mm.K[n] = val(f'v_{n}')
           if extra:
-            mm.K['x1'] = 'v_x1'
+            mm.K['x1'] = val('v_x1')
           yield mm
 
 
@@ -216,7 +236,8 @@ def check_case(sig, fname, fn, model, way, nest, res, case):
     return
   if fname == 'dataclass_factory':
     view = model.view(NO_VALUE)   # defaults are factories: not comparable
-  if view != model.view(NO_VALUE) or oa != model.ordered_arguments(NO_VALUE):
+  if _tc(view) != _tc(model.view(NO_VALUE)) or _tc(oa) != _tc(
+      model.ordered_arguments(NO_VALUE)):
     res.violation(
         f'C01/reported-arguments/{way}',
         f'{case}: cfg[:]={view!r} ordered_arguments={oa!r} but model '
@@ -263,6 +284,13 @@ def check_case(sig, fname, fn, model, way, nest, res, case):
           case)
 
 
+def _tc(x):
+  """Type-exact comparison key (1 != True != 1.0)."""
+  if isinstance(x, (list, tuple)):
+    return (type(x).__name__, tuple(_tc(v) for v in x))
+  return (type(x).__name__, repr(x))
+
+
 def _gapclass(model):
   setpos = [v is not M.UNSET for v in model.prefix]
   gap = any((not setpos[i]) and any(setpos[i + 1:]) for i in range(model.P))
@@ -303,6 +331,8 @@ def run_unit(unit, tier, seed):
         case = {'sig': unit, 'flavour': fname, 'state': core.jsonable(
             model.key()), 'way': way, 'nest': None}
         check_case(sig, fname, fn, model, way, None, res, case)
+      if fname in ('fn', 'cls'):
+        pass
       # nesting menu: on every set slot, via the edit way (function flavour),
       # and on the first set slot for every other flavour
       tokens = [v for v in model.prefix if v is not M.UNSET] + list(
@@ -315,6 +345,18 @@ def run_unit(unit, tier, seed):
           case = {'sig': unit, 'flavour': fname, 'state': core.jsonable(
               model.key()), 'way': 'edit', 'nest': [nname, t]}
           check_case(sig, fname, fn, model, 'edit', (nname, t), res, case)
+  for mode in ('none', 'falsy', 'eqhash'):
+    for fname, fn in flavours(sig)[:2]:
+      for model in model_states(sig, b, mode):
+        if not (any(v is not M.UNSET for v in model.prefix) or model.V or
+                model.K):
+          continue
+        res.states += 1
+        res.nontrivial += 1
+        for way in ('ctor_kw', 'edit'):
+          case = {'sig': unit, 'flavour': fname, 'state': core.jsonable(
+              model.key()), 'way': way, 'nest': None, 'mode': mode}
+          check_case(sig, fname, fn, model, way, None, res, case)
   res.sample({'signature': S.param_src(sig), 'states': len(states),
               'flavours': [f for f, _ in flavours(sig)]})
   return res
@@ -328,6 +370,10 @@ def replay(case):
   st = case['state']
   model = M.Model(sig, (tuple(st[0]), tuple(st[1]),
                         tuple(tuple(kv) for kv in st[2])))
+  fix = lambda v: () if v == [] else v
+  model.prefix = [fix(v) for v in model.prefix]
+  model.V = [fix(v) for v in model.V]
+  model.K = {k: fix(v) for k, v in model.K.items()}
   nest = tuple(case['nest']) if case['nest'] else None
   print('signature:', S.param_src(sig), ' flavour:', case['flavour'])
   print('model state:', model.key(), ' way:', case['way'], ' nest:', nest)
